@@ -1076,7 +1076,9 @@ class Interp:
         if ls is not None:
             return ls.run_for(self, st, fr, it)
         if getattr(type(it), "_pyvc_symlen", False) and not getattr(it, "concrete_len", lambda: False)():
-            raise Unsupported(f"loop over a symbolic-length collection without an invariant: {fr.qual} loop #{ordinal}")
+            callers = " <- ".join(f.qual.split(":")[-1] for f in reversed(self.frame_stack[-4:-1]))
+            raise Unsupported(f"loop over a symbolic-length collection without an invariant: {fr.qual} loop #{ordinal}"
+                              + (f" (called from {callers})" if callers else ""))
         broke = False
         for x in self.iterate(it):
             self.assign(st.target, x, fr)
